@@ -16,6 +16,8 @@ import sys
 import time
 
 VERIF = os.path.dirname(os.path.dirname(os.path.abspath(__file__)))
+# evidence/ and replays/ live in /verif; evaluation runs against a scratch tree (tools/seeded_run.py) redirect them
+OUTROOT = os.environ.get("VERIF_OUT", VERIF)
 REPO = os.environ.get("VERIF_REPO", "/repo")
 BUILD = os.path.join(VERIF, "build")
 SPEC = os.path.join(VERIF, "spec")
@@ -294,6 +296,7 @@ def tlc_validate(module, traces, cfg=None, timeout=1500, xmx="3g", env_extra=Non
             if st is None or rc != 0 or st.get("consumed") != st.get("events"):
                 errors.append((tr, rc, out[-3000:]))
             else:
+                st["_trace"] = tr
                 stats.append(st)
     return rejects, stats, errors
 
@@ -427,7 +430,7 @@ class Ctx:
         return r
 
     def write_replay(self, tag, lines):
-        d = os.path.join(VERIF, "replays")
+        d = os.path.join(OUTROOT, "replays")
         os.makedirs(d, exist_ok=True)
         p = os.path.join(d, "%s-%s.ndjson" % (self.prop, tag))
         with open(p, "w") as f:
@@ -449,8 +452,8 @@ class Ctx:
         cov["known_findings_hit"] = {k: v for k, v in self.known_hits.items()}
         ev = dict(property_id=self.prop, tier=self.tier, seed=self.seed, level=self.level, coverage=cov,
                   assumptions=self.assumptions, wall_s=round(time.time() - self.t0, 1), violations=len(self.violations))
-        os.makedirs(os.path.join(VERIF, "evidence"), exist_ok=True)
-        with open(os.path.join(VERIF, "evidence", self.prop + ".json"), "w") as f:
+        os.makedirs(os.path.join(OUTROOT, "evidence"), exist_ok=True)
+        with open(os.path.join(OUTROOT, "evidence", self.prop + ".json"), "w") as f:
             json.dump(ev, f, indent=1, sort_keys=True)
             f.write("\n")
         for k in known:
